@@ -3,6 +3,8 @@ NOTES = ("All checks are model-based: explicit TLA+ specifications in spec/ chec
          "implementation by replaying TLC behaviours into the real code and validating recorded executions "
          "against trace specifications (see DESIGN.md). Exit 2 = machinery failure.")
 ENGINES = [
+    {"name": "calquery", "path": "harness/calcheck.py", "serves_properties": ["C11"],
+     "kind_free_text": "CalQuery.tla tables enumerated by TLC (CalQueryCases.tla), executed via REPORT, judged by CalQueryTrace.tla"},
     {"name": "index", "path": "harness/indexcheck.py", "serves_properties": ["C10"],
      "kind_free_text": "IndexMgr.tla model checked; query histories on the real store judged by IndexTrace.tla"},
     {"name": "crash", "path": "harness/crashcheck.py", "serves_properties": ["C04"],
@@ -52,6 +54,10 @@ def table(dav):
         "TLC checks exhaustively (small scope, thresholds 0 and 1) that the index protocol of IndexMgr.tla - one action per step of AutoIndexManager/MemoryIndex/_iter_with_filter_indexes - is transparent under the soundness assumption on extracted values, and shows that a lossy extraction breaks it. TLC-simulated histories are replayed on the real store (Store API on tree/bare/memory/vdir and HTTP REPORT, thresholds 0,1,2,default) and random histories over 14 filters and 16 body classes (several components, TZID, DATE, unparseable files) are executed; every query is compared by TLC (IndexTrace.tla) with a history-free evaluation, and the real manager state (desired counters, available keys) is checked against the model step by step.",
         "TLA+ model checking (TLC) of the index protocol + trace validation of recorded query histories against the spec",
         "The oracle is the real filter.check() run by a store object that never answered a query (C11 covers check() itself); known findings identified by the classes of the differing members; harness/compat.py."))
+    checks.append(other("C11", "calquery", "exploration",
+        "CalQuery.tla transcribes RFC 4791 9.7.1-9.7.5 and the 9.9 time-range tables as TLA+ operators; TLC enumerates the complete finite case space (every presence/ordering cell of the VEVENT/VTODO/VJOURNAL/VFREEBUSY tables on a 7-point grid with both range boundaries inside: 308 component cases; 450 filter-shape x object-shape cases) with the expected verdicts. Every case is concretised in UTC, floating, TZID and DATE renderings under three effective time zones, uploaded and queried through REPORT calendar-query on the real server; TLC re-evaluates the operators on the observed results (CalQueryTrace.tla). This is an exhaustive decision-table check with TLC as enumerator and oracle, not a behavioural model: claimed as exploration (exhaustive over the stated finite grid).",
+        "TLA+ transcription of the RFC decision tables, enumerated by TLC and compared case by case with the implementation",
+        "Recurrence expansion outside the grid; date arithmetic of icalendar/zoneinfo trusted; a wrong verdict is identified by its table coordinates; harness/compat.py."))
     na = [{"property_id": p, "reason": "check not built yet in this round; planned in DESIGN.md section 5"}
-          for p in ALL if p not in claimed + ["C04", "C05", "C10"]]
+          for p in ALL if p not in claimed + ["C04", "C05", "C10", "C11"]]
     return checks, na
